@@ -134,7 +134,7 @@ Ltac leaf := cbn; split_ifs; unfold inv_b, core_b, hold_b, no_holds_b, closed_b,
 
 Ltac unf :=
   unfold step_gen, do_describe, do_add_reader, do_remove_reader, do_add_publisher, attach_publisher,
-    do_remove_publisher, do_static_ready, do_static_not_ready, do_timer, do_close, execute_remove_publisher,
+    do_remove_publisher, do_static_ready, do_static_not_ready, do_timer, do_close, clear_timers, close_source, close_demand, close_stream, execute_remove_publisher,
     set_not_available, set_available, set_online, set_offline, call_unavailable, hook_open, hook_close, panic,
     handler_start, handler_stop, ss_start, ss_schedule_close, ss_stop, pub_start, pub_schedule_close, pub_stop,
     add_reader_post, bump_on_demand, fail_on_hold, whenM, bindM, modify, emit, ret, timer_armed, disarm, cur_stream.
@@ -146,7 +146,7 @@ Ltac fin_live H := enum H; unf; leaf.
 Ltac red_goal :=
   lazy beta iota zeta delta [fst snd
      step_gen do_describe do_add_reader do_remove_reader do_add_publisher attach_publisher
-     do_remove_publisher do_static_ready do_static_not_ready do_timer do_close execute_remove_publisher
+     do_remove_publisher do_static_ready do_static_not_ready do_timer do_close clear_timers close_source close_demand close_stream execute_remove_publisher
      set_not_available set_available set_online set_offline call_unavailable hook_open hook_close panic
      handler_start handler_stop ss_start ss_schedule_close ss_stop pub_start pub_schedule_close pub_stop
      bump_on_demand fail_on_hold whenM bindM modify emit ret timer_armed disarm cur_stream
